@@ -249,7 +249,7 @@ func (f changeFinder) walkSlice(from, to *value) bool {
 		return equal
 	}
 
-	es := diff.Difference(from.Len(), to.Len(), pairComparer(from, to))
+	es := diff.Align(from.Len(), to.Len(), pairComparer(from, to))
 
 	regions := make([]Region, from.Len())
 	for i, n := range from.Children {
